@@ -127,7 +127,6 @@ func (c *Ctx) oblige(s *State, kind, label, goal, human string, pos token.Pos) {
 	sb.WriteString("(assert (not " + skGoal + "))\n")
 	o.Script = sb.String()
 	o.Vars = c.modelVars
-	o.Fields = c.entryFieldVars()
 	c.obls = append(c.obls, o)
 	// assume the goal afterwards
 	n0 := len(s.cmds)
